@@ -22,6 +22,13 @@ def _gen_swv_1d(n, ch):
         for red, exact in SWV_RED:
             yield {"source": src, "expr": f"da.sliding_window_view(x, {w}, axis=0).{red}(axis=-1)", "nexpr": f"uf.np_swv(a, {w}, 0).{red}(axis=-1)", "label": f"swv-{red}", "exact": exact}
         yield {"source": src, "expr": f"da.sliding_window_view(x, {w}, axis=0).sum(axis=-1, keepdims=True)", "nexpr": f"uf.np_swv(a, {w}, 0).sum(axis=-1, keepdims=True)", "label": "swv-sum-keepdims", "exact": False}
+    # explicit result dtypes narrower than the accumulator
+    srci = E.src((n,), (ch,), "i8")
+    for w in range(1, n + 1):
+        for red, dt in (("sum", "int32"), ("sum", "int16"), ("prod", "int32"), ("sum", "uint32")):
+            yield {"source": srci, "expr": f"da.sliding_window_view(x, {w}, axis=0).{red}(axis=-1, dtype='{dt}')", "nexpr": f"uf.np_swv(a, {w}, 0).{red}(axis=-1, dtype='{dt}')", "label": f"swv-{red}-{dt}"}
+    for w in range(1, n + 1):
+        yield {"source": src, "expr": f"da.sliding_window_view(x, {w}, axis=0).sum(axis=-1, dtype='float32')", "nexpr": f"uf.np_swv(a, {w}, 0).sum(axis=-1, dtype='float32')", "label": "swv-sum-float32", "exact": False}
     if n >= 2:
         srcn = E.src((n,), (ch,), nan=[1, n - 1])
         for w in range(1, n + 1):
